@@ -23,7 +23,7 @@ first feasible set of maximal size, and which one comes first depends only on en
 utils.random before TypeOverwriting; (3) the 600 s watchdog Timer of Transformation.visit_program is replaced by an
 inert one (it never fires here; thread start latency dominates small programs on a loaded machine).
 
-Inputs: 15 hand-built scenarios x 2 element types x 4 languages, and generator programs for the fixed seed lists
+Inputs: 17 hand-built scenarios x 2 element types x 4 languages, and generator programs for the fixed seed lists
 SEEDS_QUICK / SEEDS_THOROUGH (+ VERIF_SEED-derived extras in the thorough tier); every input is rebuilt from
 (source, language, ident) alone, so each violation record is replayable with `replay`.
 
@@ -1041,6 +1041,15 @@ class Narrowed(Exception):
     the program may or may not stay well-typed)"""
 
 
+# A removed annotation whose inferred replacement is a STRICT SUBTYPE of it.  The statement's second sentence only demands
+# well-typedness, but its title ("only removes inferable type information") and the anchored mechanism ("every omitted
+# declaration must still reach only its own type") demand that the compiler infers the removed type itself.  While the
+# statement is what the check enforces: narrowing alone is counted (`narrowed`), not reported -- the thorough tier shows
+# narrowed function-typed variables on the unchanged tree (e.g. scala seed 46, java seed 6306), which are well-typed.
+# Set to True to see them (check names erasure-inferable:*-narrowed).
+NARROWED_IS_VIOLATION = False
+
+
 class Mismatch(Exception):
     def __init__(self, bad, oracle):
         self.bad = bad
@@ -1075,7 +1084,7 @@ class Walker:
             # the removed annotation: a narrower inferred type alone is counted ("narrowed"), not reported; it becomes a
             # violation only where the reference finds the narrowed program ill-typed (Mismatch below)
             self.record(kind.replace(':from-outer-declaration', '') + '-narrowed' + (':from-outer-declaration' if ':from-outer-declaration' in kind else ''),
-                        node, 'narrowed', where, str(e))
+                        node, 'narrowed' if not NARROWED_IS_VIOLATION else 'violation', where, str(e))
         except (NoInfer, Mismatch) as e:
             self.record(kind, node, 'violation', where, str(e))
         except RecursionError:
@@ -1991,6 +2000,30 @@ def hand_programs(M, lang):
                                       ast.Operator('==')), BOOL()),
             val('d', ast.EqualityExpr(ast.FunctionCall('mk', [], type_args=[S()]), lit(), ast.Operator('==')), BOOL())))
 
+    def super_arg_call(S, lit, O):
+        # a super-constructor argument that is a zero-argument method call on a receiver: the only expressions the erasure
+        # rebuilds (update_children) are the arguments of class-level super-constructor calls
+        c = cls('C', funcs=[fun('get', [], S(), lit(), METHOD)])
+        a = cls('A', fields=[ast.FieldDeclaration('f', S())])
+        b = cls('B', supers=[ast.SuperClassInstantiation(a.get_type(), [
+            ast.FunctionCall('get', [], receiver=ast.New(c.get_type(), []))])])
+        return prog(c, a, b, unit('m', val('x', lit(), S())))
+
+    def inherited_generic_field(S, lit, O):
+        # class A<T>; class P<U>(val f: U); class Q<T> : P<A<T>>: the type of q.f for q: Q<S> is A<S>, not S
+        T = tp.TypeParameter('T')
+        a = cls('A', tparams=[T])
+        U = tp.TypeParameter('T')        # (the same parameter name in P and Q, on purpose)
+        p = cls('P', fields=[ast.FieldDeclaration('f', U)], tparams=[U])
+        T2 = tp.TypeParameter('T')
+        q = cls('Q', tparams=[T2], supers=[ast.SuperClassInstantiation(p.get_type().new([a.get_type().new([T2])]), None)])
+        # (the receiver is Q<Any>, so that a wrong answer "the type of q.f is the receiver's type argument" coincides with
+        # the declared type Any of y)
+        qs = lambda: q.get_type().new([ANY()])
+        return prog(a, p, q, fun('m', [ast.ParameterDeclaration('q', qs())], VOID(), ast.Block([
+            val('y', ast.FieldAccess(ast.Variable('q'), 'f'), ANY()),
+            val('z', ast.FieldAccess(ast.Variable('q'), 'f'), a.get_type().new([ANY()]))])))
+
     def generic_super(S, lit, O):
         T = tp.TypeParameter('T')
         a = cls('A', tparams=[T])
@@ -2063,7 +2096,8 @@ def hand_programs(M, lang):
         return prog(base, foo, sub, other, box)
 
     scen = dict(bounded_tvar=bounded_tvar, shadowing=shadowing, decl_vs_new=decl_vs_new, ctor_arg=ctor_arg, recursion=recursion, subtype_init=subtype_init,
-                generic_call=generic_call, eq_operand=eq_operand, generic_super=generic_super, field_init=field_init, two_params=two_params,
+                generic_call=generic_call, eq_operand=eq_operand, super_arg_call=super_arg_call,
+                inherited_generic_field=inherited_generic_field, generic_super=generic_super, field_init=field_init, two_params=two_params,
                 ret_block=ret_block, call_arg=call_arg, dup_targs=dup_targs, shared_type_object=shared_type_object,
                 conditional_init=conditional_init)
     out = {}
@@ -2078,7 +2112,7 @@ def hand_programs(M, lang):
 # generator never aliases the type object of a constructor call (scanned), so it is outside the properties' domain
 HAND = ['decl_vs_new', 'ctor_arg', 'recursion', 'subtype_init', 'generic_call', 'generic_super', 'field_init',
         'two_params', 'ret_block', 'call_arg', 'dup_targs', 'conditional_init', 'shadowing',
-        'bounded_tvar', 'eq_operand']
+        'bounded_tvar', 'eq_operand', 'super_arg_call', 'inherited_generic_field']
 HAND = HAND + [h + '_long' for h in HAND]
 
 
@@ -2396,7 +2430,7 @@ def run(tier, seed, stop_first=False, prop='C03', workers=None):
     nprog = len([r for r in results if r is not None and not r['skipped']])
     if prop == 'C03':
         why = agg.pop('why', {})
-        rule = ('%d programs (15 hand-built scenarios x 2 element types x 4 languages; generator seeds %s per language, chosen by generation '
+        rule = ('%d programs (17 hand-built scenarios x 2 element types x 4 languages; generator seeds %s per language, chosen by generation '
                 'cost only%s) x enumeration orders of equally large candidate sets (natural + VERIF_SEED-derived), each '
                 'run through the real TypeErasure on a deep copy. Per run: (1) structural snapshot of every attribute of '
                 'every node, of the symbol table and of every recorded type before/after - only VariableDeclaration.var_type '
@@ -2416,7 +2450,7 @@ def run(tier, seed, stop_first=False, prop='C03', workers=None):
                    agg.get('ret', 0), agg.get('new', 0), agg.get('call', 0), agg.get('ok', 0), agg.get('violation', 0),
                    agg.get('undecided', 0), ', '.join('%s x%d' % kv for kv in sorted(why.items(), key=lambda kv: -kv[1])[:4])))
     else:
-        rule = ('%d programs (15 hand-built scenarios x 2 element types x 4 languages; generator seeds %s per language%s), each both as '
+        rule = ('%d programs (17 hand-built scenarios x 2 element types x 4 languages; generator seeds %s per language%s), each both as '
                 'generated and after TypeErasure, x RNG seeds of the mutation (fixed + VERIF_SEED-derived), run through the '
                 'real TypeOverwriting on a deep copy. When an injection is reported (%d runs): structural diff = exactly '
                 'one declaration\'s declared+recorded type or exactly one explicit type argument (kinds: %s); new type '
